@@ -11,6 +11,17 @@ Lens == 0..42
 Links == IF Thorough THEN {"eth", "raw", "null"} ELSE {"eth"}
 Init == shard \in 0..(Shards - 1) /\ phase = 0
 Next == phase = 0 /\ phase' = 1 /\ UNCHANGED shard
+H2Types == 0..10
+H2Flags == IF Thorough THEN {0, 1, 4, 5, 8, 9, 12, 13, 32, 33, 36, 37, 40, 41, 44, 45} ELSE {0, 4, 8, 12, 32, 36, 40, 44}
+H2Lens == IF Thorough THEN 0..12 ELSE 0..8
+H2First == (IF Thorough THEN 0..14 ELSE 0..9) \cup {255}
+InvH2 == phase = 1 =>
+  \A t \in H2Types : ((t % Shards) = shard) =>
+     \A fl \in H2Flags, st \in {0, 1}, n \in H2Lens, b0 \in H2First, d \in {-1, 0, 1}, pre \in BOOLEAN, tail \in BOOLEAN :
+        ((d # 0 => b0 = 0) /\ (n = 0 => b0 = 0) /\ (~Thorough => (tail = FALSE \/ b0 \in {0, 255}))) =>
+           PrintT("H2 " \o ToJson([b |-> H2Conn(pre, H2Shape(t, fl, st, n, b0, d), tail)]))
+InvTls == phase = 1 =>
+  \A f \in TlsFields : \A d \in -8..8 : (((d + 8) % Shards) = shard) => PrintT("TLS " \o ToJson([b |-> TlsHelloWith(f, d), field |-> f, delta |-> d]))
 Inv == phase = 1 =>
   \A s \in Sizes : \A p \in 0..(s - 1) : (((s + p) % Shards) = shard) =>
      \A l \in Links, v \in {4, 6}, k \in Kinds, n \in Lens :
